@@ -131,7 +131,8 @@ def _analyse_site(ctx, modname, fq, fn):
     mut.replace_expr('keys', 'HDKey.__init__', 'len(bkey) != 82 or bkey[-4:] != double_sha256(bkey[:-4])[:4]', 'len(bkey) != 82', 'HDKey.__init__: checksum test removed'),
     mut.drop_stmt('keys', 'bip38_decrypt', 'if d[-4:] != double_sha256(d[:-4])[:4]', 'bip38_decrypt: checksum test removed'),
     mut.drop_stmt('keys', 'Key.__init__', 'if checksum != double_sha256(key)[:4]', 'Key.__init__ WIF: checksum test removed'),
-    mut.drop_stmt('encoding', 'addr_base58_to_pubkeyhash', 'assert check == checksum', 'addr_base58_to_pubkeyhash: assert removed'),
+    mut.drop_stmt('encoding', 'addr_base58_to_pubkeyhash', 'if check != checksum', 'addr_base58_to_pubkeyhash: checksum test removed'),
+    mut.replace_stmt('encoding', 'addr_base58_to_pubkeyhash', 'if check != checksum', "assert check == checksum, 'Invalid address, checksum incorrect'", 'addr_base58_to_pubkeyhash: checksum only asserted'),
     mut.replace_expr('keys', 'deserialize_address', 'double_sha256(key_hash)[0:4]', 'double_sha256(key_hash)[0:2]', 'deserialize_address: only 2 checksum bytes compared'),
     mut.replace_expr('keys', 'Key.__init__', 'double_sha256(key)[:4]', 'double_sha256(import_key)[:4]', 'Key.__init__ WIF: checksum over the wrong bytes'),
     mut.cmpop('keys', 'HDKey.from_wif', 'bkey[-4:] != double_sha256(bkey[:-4])[:4]', ast.Eq, 'HDKey.from_wif: checksum test inverted'),
@@ -158,6 +159,12 @@ def b58_check(ctx):
                 continue
             q, reports = _analyse_site(ctx, modname, fq, fn)
             ctx.saw('%s: decode site analysed, %d unguarded payload uses' % (q, len(reports)))
+            # an `assert` is no check: python -O removes it, and without -O the caller gets an AssertionError, not the library's error
+            for a in walk_no_nested(fn):
+                if isinstance(a, ast.Assert) and any(isinstance(x, ast.Compare) for x in ast.walk(a.test)) and \
+                        any(isinstance(x, ast.Name) and ('check' in x.id.lower()) for x in ast.walk(a.test)):
+                    ctx.violate(q, 'the checksum of the decoded string is only compared in an assert statement (`%s`)' % norm(a)[:70], a,
+                                'under python -O the statement does not exist: a Base58Check string with a wrong checksum is decoded to a payload')
             seen = set()
             for kind, D, node, cands in reports:
                 key = (kind.split(' in ')[0], show(D))
@@ -639,3 +646,38 @@ def wif_payload_length(ctx):
 PROP.obligation('C11.witness-version-decoded', canaries=[
     mut.replace_expr('keys', 'deserialize_address', "'p2wsh' if not witver else 'p2tr'", "'p2wsh'", 'a 32-byte program of version 1..16 re-encodes as a version-0 address'),
 ])(_c05.deser)
+
+
+@PROP.obligation('C11.convert-keeps-version', canaries=[
+    mut.replace_expr('keys', 'addr_convert', "pubkeyhash_to_addr(pkh, prefix=prefix, encoding=to_encoding, witver=da['witver'] or 0)", 'pubkeyhash_to_addr(pkh, prefix=prefix, encoding=to_encoding)', 'converted addresses are always witness version 0'),
+])
+def convert_keeps_version(ctx):
+    """keys.addr_convert (behind Address.with_prefix and the provider-prefix override of Address) decodes an address and encodes the
+    payload again. Evaluated on a decoded Bech32m address of witness version 1 and 16 and on a version-0 one: the encoder is handed
+    the witness version that was decoded. Without it bc1p... comes back as a version-0 bc1q... string - another address, although
+    decoding followed by re-encoding must return the identical string."""
+    q = 'keys:addr_convert'
+    fn = ctx.repo.func(q)
+    n = 0
+    for witver in (0, 1, 16):
+        seen = []
+        hooks = {'deserialize_address': lambda it, a, kw, st, node, witver=witver: {'encoding': 'bech32', 'witver': witver, 'prefix': 'bc', 'network': 'bitcoin'},
+                 'addr_to_pubkeyhash': lambda it, a, kw, st, node: S(('var', 'pkh'), 'bytes'),
+                 'pubkeyhash_to_addr': lambda it, a, kw, st, node: (seen.append((a, kw)), S(('var', 'new_address'), 'str'))[1]}
+        it = Interp(ctx.repo, 'keys', hooks=hooks)
+        for enc in (None, 'bech32'):
+            del seen[:]
+            try:
+                it.run_function(fn, {'addr': S(('var', 'addr'), 'str'), 'prefix': 'tb', 'encoding': enc, 'to_encoding': None})
+            except AnalysisError as e:
+                ctx.undecided('addr_convert not evaluable: %s' % str(e)[:100])
+            if len(seen) != 1:
+                ctx.undecided('addr_convert: %d calls of pubkeyhash_to_addr, expected 1' % len(seen))
+            a, kw = seen[0]
+            got = kw.get('witver', a[3] if len(a) > 3 else 0)
+            got = got if isinstance(got, int) else show(term(got))
+            n += 1
+            ctx.saw('addr_convert(<witness version %d address>, encoding=%r) -> pubkeyhash_to_addr(..., witver=%s)' % (witver, enc, got))
+            ctx.require(got == witver, q, 'an address of witness version %d (encoding=%r) is encoded again with witness version %s' % (witver, enc, got), fn,
+                        "addr_convert('bc1p5cyxnuxmeuwuvkwfem96lqzszd02n6xdcjrs20cac6yqjjwudpxqkedrcr', 'bc') returns the version-0 address bc1q5cyx...: Address(..., network_overrides=...) silently turns a taproot address into a P2WSH one")
+    ctx.floor(n, 6, 'conversion scenarios')
